@@ -111,6 +111,15 @@ impl<F: Future> Future for PollLimited<F> {
     }
 }
 
+/// Releases the values the harness built for borrowed arguments (`bn_rt::release_keep`) when the async driver's
+/// future completes OR is dropped with the task (declared first in the driver, hence dropped last).
+pub struct KeepGuard;
+impl Drop for KeepGuard {
+    fn drop(&mut self) {
+        bn_rt::release_keep();
+    }
+}
+
 /// async driver of an imported function, callable from inside an export stub ("both" scenario)
 pub struct ADriver {
     pub key: &'static str,
